@@ -153,6 +153,10 @@ def run(ctx):
     from rules import toksem
     from rules.c05 import _Renamed
     toksem.check_words(_Renamed(ctx, 'R14.6'), prog)
+    # R14.7 renaming is sound only if evaluation treats identifiers as opaque names: no assignment arm lets its outcome depend on the
+    # text of the target (the C04 R4.4 case analysis with a symbolic target name: one outcome per case, the name only handed to the context)
+    from rules.c04 import r44
+    r44(_Renamed(ctx, 'R14.7'), prog)
 
 
 def r14_5(ctx, prog):
